@@ -5,76 +5,135 @@
    the stored set still has a hole, is the `gap` defect.) *)
 From Coq Require Import List NArith Bool Lia Permutation Sorted.
 From Coq Require Import Strings.Byte.
-From HN Require Import Base.Bytes Base.Cache Base.Tcp Model.HttpFlow Proofs.CacheProofs Proofs.StreamProofs Proofs.CostProofs.
+From HN Require Import Base.Bytes Base.Cache Base.Tcp Model.HttpFlow Proofs.CacheProofs Proofs.Serial32 Proofs.StreamProofs Proofs.CostProofs.
 Import ListNotations.
 Open Scope N_scope.
 
-(* the accumulator of sort_td is kept in descending order (stable: of equal keys the later one first) *)
-Fixpoint descending (l : list tcpdata) : Prop :=
+(* the accumulator of sort_td is kept in descending order of the sort key (stable: of equal keys the later one first) *)
+Fixpoint descending_k (k : tcpdata -> N) (l : list tcpdata) : Prop :=
   match l with
   | [] => True
-  | x :: r => (forall y, In y r -> td_seq y <= td_seq x) /\ descending r
+  | x :: r => (forall y, In y r -> k y <= k x) /\ descending_k k r
   end.
 
-Lemma insert_rev_in x acc y : In y (insert_rev x acc) <-> y = x \/ In y acc.
+Lemma insert_rev_in k x acc y : In y (insert_rev k x acc) <-> y = x \/ In y acc.
 Proof.
   induction acc as [|z r IH]; cbn; [intuition|].
-  destruct (td_seq x <? td_seq z); cbn; [rewrite IH|]; intuition.
+  destruct (k x <? k z); cbn; [rewrite IH|]; intuition.
 Qed.
 
-Lemma insert_rev_descending x acc : descending acc -> descending (insert_rev x acc).
+Lemma insert_rev_descending k x acc : descending_k k acc -> descending_k k (insert_rev k x acc).
 Proof.
   induction acc as [|z r IH]; cbn; intros H; [split; [intros y []|exact I]|].
   destruct H as [Hz Hr].
-  destruct (td_seq x <? td_seq z) eqn:E.
+  destruct (k x <? k z) eqn:E.
   - cbn. split; [|now apply IH].
     intros y Hy. apply insert_rev_in in Hy. destruct Hy as [->|Hy]; [apply N.ltb_lt in E; lia | now apply Hz].
   - apply N.ltb_ge in E. cbn. split; [|split; assumption].
     intros y [<-|Hy]; [exact E | specialize (Hz y Hy); lia].
 Qed.
 
-Lemma fold_insert_descending l : forall acc, descending acc ->
-  descending (fold_left (fun acc x => insert_rev x acc) l acc).
+Lemma fold_insert_descending k l : forall acc, descending_k k acc ->
+  descending_k k (fold_left (fun acc x => insert_rev k x acc) l acc).
 Proof. induction l as [|x l IH]; intros acc H; cbn; [exact H | apply IH, insert_rev_descending, H]. Qed.
 
+Lemma descending_k_impl k k' acc :
+  (forall x y, In x acc -> In y acc -> k' y <= k' x -> k y <= k x) -> descending_k k' acc -> descending_k k acc.
+Proof.
+  induction acc as [|x acc IH]; intros H D; [exact I|]. destruct D as [Dx Da]. split.
+  - intros y Hy. apply H; [now left | now right | now apply Dx].
+  - apply IH; auto. intros a b Ha Hb. apply H; now right.
+Qed.
+
 (* two descending lists with the same elements and pairwise distinct keys are equal *)
-Lemma descending_unique l : forall l',
-  descending l -> descending l' -> Permutation l l' -> NoDup (map td_seq l) -> l = l'.
+Lemma descending_unique k l : forall l',
+  descending_k k l -> descending_k k l' -> Permutation l l' -> NoDup (map k l) -> l = l'.
 Proof.
   induction l as [|x l IH]; intros l' D D' P ND.
   - apply Permutation_nil in P. now subst.
   - destruct l' as [|x' l']; [apply Permutation_sym, Permutation_nil in P; discriminate|].
     destruct D as [Dx Dl], D' as [Dx' Dl'].
-    assert (ND' : NoDup (map td_seq (x' :: l'))).
-    { eapply Permutation_NoDup; [apply Permutation_map; exact P | exact ND]. }
     assert (Hx : x = x').
     { assert (In x (x' :: l')) as I1 by (eapply Permutation_in; [exact P | now left]).
       assert (In x' (x :: l)) as I2 by (eapply Permutation_in; [apply Permutation_sym; exact P | now left]).
       destruct I1 as [->|I1]; [reflexivity|]. destruct I2 as [->|I2]; [reflexivity|].
       specialize (Dx x' I2). specialize (Dx' x I1).
-      assert (td_seq x = td_seq x') as E by lia.
-      (* equal keys, distinct positions in (x :: l): contradiction with NoDup *)
+      assert (k x = k x') as E by lia.
       exfalso. inversion ND as [|? ? Hn _]; subst. apply Hn. rewrite E. now apply in_map. }
     subst x'. f_equal. apply IH; auto.
     + now apply Permutation_cons_inv in P.
     + now inversion ND.
 Qed.
 
-Lemma sort_td_perm_eq l l' : Permutation l l' -> NoDup (map td_seq l) -> sort_td l = sort_td l'.
+(* the window: every stored sequence number is a u32 within 2^31 of the reference point r *)
+Definition win (r : N) (l : list tcpdata) : Prop :=
+  Forall (fun d => td_seq d < two32 /\ off32 r (td_seq d) < two31) l.
+
+Lemma sort_base_in l x : In x l -> exists b, In b l /\ sort_base l = td_seq b.
+Proof. destruct l as [|b l]; [intros []|]. intros _. exists b. split; [now left | reflexivity]. Qed.
+
+(* inside the window the sort key orders by offset from r, whichever stored segment is the base *)
+Lemma sort_key_le r l x y : r < two32 -> win r l -> In x l -> In y l ->
+  (sort_key l x <= sort_key l y <-> off32 r (td_seq x) <= off32 r (td_seq y)).
 Proof.
-  intros P ND. unfold sort_td. rewrite !frev_rev. f_equal.
-  apply descending_unique.
-  - apply fold_insert_descending. exact I.
-  - apply fold_insert_descending. exact I.
-  - etransitivity; [apply fold_insert_perm|]. etransitivity; [|apply Permutation_sym, fold_insert_perm].
-    now apply Permutation_app_tail.
-  - eapply Permutation_NoDup; [|exact ND]. apply Permutation_map, Permutation_sym.
-    etransitivity; [apply fold_insert_perm|]. now rewrite app_nil_r.
+  intros Hr W Hx Hy. destruct (sort_base_in l x Hx) as (b & Hb & Eb). unfold sort_key. rewrite Eb.
+  unfold win in W. rewrite Forall_forall in W.
+  destruct (W b Hb), (W x Hx), (W y Hy). now apply skey32_le.
+Qed.
+Lemma sort_key_inj r l x y : r < two32 -> win r l -> In x l -> In y l ->
+  sort_key l x = sort_key l y -> td_seq x = td_seq y.
+Proof.
+  intros Hr W Hx Hy E.
+  assert (off32 r (td_seq x) = off32 r (td_seq y)).
+  { pose proof (proj1 (sort_key_le r l x y Hr W Hx Hy)). pose proof (proj1 (sort_key_le r l y x Hr W Hy Hx)). lia. }
+  unfold win in W. rewrite Forall_forall in W. destruct (W x Hx) as [X1 X2], (W y Hy) as [Y1 Y2].
+  exact (off32_inj r _ _ Hr X1 Y1 H).
 Qed.
 
-Theorem rebuild_order_invariant l l' :
-  Permutation l l' -> NoDup (map td_seq l) -> full_data l = full_data l'.
-Proof. intros P ND. unfold full_data. now rewrite (sort_td_perm_eq l l' P ND). Qed.
+Lemma nodup_map_impl {A} (f g : A -> N) l :
+  (forall x y, In x l -> In y l -> f x = f y -> g x = g y) -> NoDup (map g l) -> NoDup (map f l).
+Proof.
+  induction l as [|x l IH]; cbn; intros H ND; [constructor|].
+  inversion ND as [|? ? Hn Hl]; subst. constructor.
+  - intros Hin. apply in_map_iff in Hin. destruct Hin as (y & Ey & Hy). apply Hn.
+    apply in_map_iff. exists y. split; [|exact Hy]. symmetry. apply H; [now left | now right | now symmetry].
+  - apply IH; [|exact Hl]. intros a b Ha Hb. apply H; now right.
+Qed.
+
+Lemma sort_td_perm_eq r l l' :
+  Permutation l l' -> r < two32 -> win r l -> NoDup (map td_seq l) -> sort_td l = sort_td l'.
+Proof.
+  intros P Hr W ND. unfold sort_td. rewrite !frev_rev. f_equal.
+  assert (W' : win r l') by (eapply Permutation_Forall; eauto).
+  assert (P1 : Permutation (fold_left (fun acc x => insert_rev (sort_key l) x acc) l []) l).
+  { etransitivity; [apply fold_insert_perm|]. now rewrite app_nil_r. }
+  assert (P2 : Permutation (fold_left (fun acc x => insert_rev (sort_key l') x acc) l' []) l').
+  { etransitivity; [apply fold_insert_perm|]. now rewrite app_nil_r. }
+  apply (descending_unique (sort_key l)).
+  - apply fold_insert_descending. exact I.
+  - eapply descending_k_impl; [|apply fold_insert_descending; exact I].
+    intros x y Hx Hy H.
+    assert (Hx' : In x l') by (eapply Permutation_in; eauto).
+    assert (Hy' : In y l') by (eapply Permutation_in; eauto).
+    assert (Hxl : In x l) by (eapply Permutation_in; [apply Permutation_sym; exact P | exact Hx']).
+    assert (Hyl : In y l) by (eapply Permutation_in; [apply Permutation_sym; exact P | exact Hy']).
+    apply (sort_key_le r l y x Hr W Hyl Hxl). now apply (sort_key_le r l' y x Hr W' Hy' Hx').
+  - etransitivity; [exact P1|]. etransitivity; [exact P|]. now apply Permutation_sym.
+  - eapply Permutation_NoDup; [apply Permutation_map, Permutation_sym; exact P1|].
+    eapply nodup_map_impl; [|exact ND]. intros x y Hx Hy. now apply (sort_key_inj r l).
+Qed.
+
+(* what is rebuilt does not depend on the arrival order, provided the stored sequence numbers are
+   distinct and all lie within 2^31 of one reference point (then every choice of base orders alike) *)
+Theorem rebuild_order_invariant r l l' :
+  Permutation l l' -> r < two32 -> win r l -> NoDup (map td_seq l) -> full_data l = full_data l'.
+Proof. intros P Hr W ND. unfold full_data. now rewrite (sort_td_perm_eq r l l' P Hr W ND). Qed.
+
+Lemma near_win isn l : near isn l -> win isn l.
+Proof.
+  unfold near, win. intros H. eapply Forall_impl; [|exact H]. cbn. intros d (H1 & H2 & H3).
+  split; [exact H3|]. rewrite off32_plain by assumption. lia.
+Qed.
 
 (* a gap-free chain of non-empty segments has strictly increasing sequence numbers *)
 Lemma chain_seqs_above ps : forall s y, In y (map td_seq (chain_tds s ps)) -> s <= y.
@@ -92,13 +151,15 @@ Qed.
 (* all segments stored, in any arrival order: the rebuilt stream is the in-order stream *)
 Theorem rebuild_any_order isn data0 ps stored :
   data0_ok isn data0 -> Forall (fun p => p <> []) ps ->
+  isn < two32 -> near isn (data0 ++ chain_tds (isn + 1) ps) ->
   Permutation stored (data0 ++ chain_tds (isn + 1) ps) ->
   full_data stored = concat ps.
 Proof.
-  intros H0 Hne P. rewrite <- (full_data_chain data0 isn ps H0).
-  apply rebuild_order_invariant; [exact P|].
-  eapply Permutation_NoDup; [apply Permutation_map, Permutation_sym; exact P|].
-  rewrite map_app. destruct H0 as [-> | ->]; cbn [map app].
-  - now apply chain_nodup.
-  - constructor; [|now apply chain_nodup]. intros Hin. apply chain_seqs_above in Hin. cbn in Hin. lia.
+  intros H0 Hne Hi Hn P. rewrite <- (full_data_chain data0 isn ps H0 Hi Hn).
+  apply (rebuild_order_invariant isn); [exact P | exact Hi | |].
+  - apply near_win. eapply Permutation_Forall; [apply Permutation_sym; exact P | exact Hn].
+  - eapply Permutation_NoDup; [apply Permutation_map, Permutation_sym; exact P|].
+    rewrite map_app. destruct H0 as [-> | ->]; cbn [map app].
+    + now apply chain_nodup.
+    + constructor; [|now apply chain_nodup]. intros Hin. apply chain_seqs_above in Hin. cbn in Hin. lia.
 Qed.
